@@ -113,6 +113,7 @@ type ContractFile struct {
 	Order     []string
 	Globals   []*Clause // global invariants (`//@ global invariant ...`)
 	Axioms    []*Clause // assumed facts about opaque spec functions (`//@ axiom ...`)
+	TypeInvs  map[string]*Clause // representation invariants: `//@ typeinv T: expr(self)`
 	Guarded   []GuardDecl
 }
 
@@ -131,7 +132,7 @@ func ParseContracts(path string) (*ContractFile, error) {
 		return nil, err
 	}
 	defer f.Close()
-	cf := &ContractFile{Contracts: map[string]*Contract{}}
+	cf := &ContractFile{Contracts: map[string]*Contract{}, TypeInvs: map[string]*Clause{}}
 	var cur *Contract
 	sc := bufio.NewScanner(f)
 	sc.Buffer(make([]byte, 1<<20), 1<<20)
@@ -192,6 +193,16 @@ func ParseContracts(path string) (*ContractFile, error) {
 				return nil, fmt.Errorf("%s:%d: %v", path, pendingLine, err)
 			}
 			cf.Guarded = append(cf.Guarded, g)
+			continue
+		case "typeinv":
+			i := strings.Index(rest, ":")
+			if i < 0 {
+				return nil, fmt.Errorf("%s:%d: typeinv needs `Type: expr`", path, pendingLine)
+			}
+			tn := strings.TrimSpace(rest[:i])
+			cl := mkClause("typeinv", "inv: "+strings.TrimSpace(rest[i+1:]), pendingLine, &auto)
+			cl.CallType = tn
+			cf.TypeInvs[tn] = cl
 			continue
 		case "axiom":
 			cl := mkClause("axiom", rest, pendingLine, &auto)
